@@ -1,7 +1,7 @@
 SPECIFICATION Spec
 CONSTANTS
   ByteVals <- BytesQuick
-  MaxPayload = 3
+  MaxPayload = 2
   AddrVecs <- AddrQuick
   OddTail = TRUE
 INVARIANTS TypeOK SumIsFFFF FlipsDetected
